@@ -561,3 +561,50 @@ func TestVerifC14_HeaderLinesWhileSearching(t *testing.T) {
 		c14Hygiene(t, s, history, code, false, false)
 	})
 }
+
+// Long searches (several progress reports) that overlap with a running
+// execute / transform command: the session must keep going - answer, take
+// further actions and exit.
+func TestVerifC14_SearchProgressWhileExecuting(t *testing.T) {
+	rapid.Check(t, func(t *rapid.T) {
+		n := rapid.SampledFrom([]int{1200000, 2000000}).Draw(t, "lines")
+		s := StartSession(t, SessionCfg{Args: []string{"--no-mouse"}, InputCmd: fmt.Sprintf("seq %d", n), Width: 80, Height: 12})
+		defer s.Close()
+		if _, ok := s.WaitFor(1, func(st *Status) bool { return !st.Reading && st.TotalCount == n }); !ok {
+			infra(t, "input was not loaded")
+		}
+		history := []string{fmt.Sprintf("seq %d | fzf", n)}
+		rounds := rapid.IntRange(1, 3).Draw(t, "rounds")
+		for r := 0; r < rounds; r++ {
+			q := rapid.SampledFrom([]string{"1", "12", "1 2", "9 1", "135"}).Draw(t, "query")
+			cmd := rapid.SampledFrom([]string{"execute-silent(sleep 0.8)", "execute(sleep 0.6)", "transform-header(sleep 0.7; echo H)", "transform-query(sleep 0.5; echo 77)"}).Draw(t, "command")
+			gap := rapid.SampledFrom([]int{0, 20, 120, 250}).Draw(t, "gapMs")
+			s.Post("change-query(" + q + ")")
+			time.Sleep(time.Duration(gap) * time.Millisecond)
+			s.Post(cmd)
+			history = append(history, fmt.Sprintf("POST change-query(%s), %d ms, POST %s", q, gap, cmd))
+			// the command blocks the UI for its duration: then the session must answer again
+			ok := false
+			for deadline := time.Now().Add(25 * time.Second); time.Now().Before(deadline); time.Sleep(100 * time.Millisecond) {
+				if st, err := s.Get(1, 0); err == nil && !st.Reading {
+					ok = true
+					break
+				}
+			}
+			if !ok {
+				t.Fatalf("fzf stopped answering\nhistory:\n  %s\ngoroutines:\n%s", strings.Join(history, "\n  "), s.GoroutineDump())
+			}
+		}
+		s.Post("change-query(zz)")
+		if _, ok := s.WaitFor(1, func(st *Status) bool { return st.Query == "zz" }); !ok {
+			t.Fatalf("fzf stopped executing actions\nhistory:\n  %s\ngoroutines:\n%s", strings.Join(history, "\n  "), s.GoroutineDump())
+		}
+		s.Post("abort")
+		code, ok := s.WaitExit(20 * time.Second)
+		if !ok {
+			t.Fatalf("fzf did not exit\nhistory:\n  %s\ngoroutines:\n%s", strings.Join(history, "\n  "), s.GoroutineDump())
+		}
+		vstat.Case("C14/search-progress-while-executing", strings.Join(history, "|"), true, fmt.Sprintf("lines=%d", n))
+		c14Hygiene(t, s, history, code, false, false)
+	})
+}
